@@ -11,7 +11,7 @@ import numpy as np
 
 from dask_array._new_collection import new_collection
 from dask._task_spec import Alias
-from dask_array._expr import ArrayExpr
+from dask_array._expr import ArrayExpr, ChunksFreeze
 from dask_array.slicing._utils import normalize_index
 
 
@@ -143,4 +143,9 @@ def blocks_getitem(array, index):
     # Convert integers to length-1 slices to preserve dimensionality
     index = tuple(slice(k, k + 1) if isinstance(k, Number) else k for k in index)
 
+    # Block positions refer to the layout advertised now; pin it, so that a
+    # rewrite that moves the array onto other chunks cannot change which data
+    # a position selects.
+    if not isinstance(array, ChunksFreeze):
+        array = ChunksFreeze(array, array.chunks)
     return Blocks(array, index)
